@@ -67,6 +67,7 @@ func genParams(i int64, r *rand.Rand, thorough bool) *params {
 	p.chunk = [2]int{chunks[r.IntN(5)], chunks[r.IntN(5)]}
 	p.intensity = []int{0, 1, 2, 2, 3}[r.IntN(5)]
 	p.jitter = [2]int{r.IntN(3), r.IntN(3)}
+	p.pace = r.IntN(3)
 
 	// smallest active threshold decides packet sizes and volume
 	minThr := uint64(0)
@@ -79,16 +80,16 @@ func genParams(i int64, r *rand.Rand, thorough bool) *params {
 	switch {
 	case minThr == 0:
 		p.lenProfile = r.IntN(3)
-		total = 700
+		total = 2400
 	case minThr <= 300:
 		p.lenProfile = r.IntN(2)
-		total = 260
+		total = 1600
 	case minThr <= 1024:
 		p.lenProfile = 1 + r.IntN(2)
-		total = 500
+		total = 2000
 	default:
 		p.lenProfile = 3
-		total = 1100
+		total = 2400
 	}
 	unit := total / 8
 
@@ -199,6 +200,7 @@ func TestC31(t *testing.T) {
 		m.Count("simultaneous_kexinit_forced", int(out.simulForced))
 		m.Count("packets_flushed_from_pending_queue", a.appInFlushTail)
 		m.Count("explicit_requests", int(out.c.requests.Load()))
+		m.Count("explicit_requests_repeated_nudges", int(out.c.nudges.Load()))
 		m.Count("events_logged", out.events)
 		m.Count("goroutine_dumps_for_forcing", int(out.dumps))
 		for _, ph := range p.phases {
